@@ -168,7 +168,7 @@ static void eval_sig(SigCase &S, const std::string &t, const std::string &field,
 	std::string cls = same ? "honest" : (equiv ? "equivalent" : "tamper");
 	note("sig/" + field + "/" + mut, S.K->ref + std::to_string(S.msg.data.size()));
 	count("sig_" + cls + (acc ? "_accepted" : "_refused")); count("sig_field_" + field); if (!exc.empty()) count("sig_refused_by_exception");
-	if (ctx.option_l("rec", 1)) { emit_key(V); J j; j.kv("r", "v").kv("k", V.ref).kv("cls", cls).kv("field", field).kv("mut", mut).kv("t", t).kv("acc", acc); put_data(j, D); record(j.str()); }
+	if (ctx.option_l("rec", 1)) { emit_key(V); J j; j.kv("r", "v").kv("k", V.ref).kv("cls", cls).kv("field", field).kv("mut", mut).kv("txt", t).kv("acc", acc); put_data(j, D); record(j.str()); }
 	J w; w.kv("keybits", S.K->spec.bits).kv("nizk", S.K->spec.nizk).kv("field", field).kv("mutation", mut).kv("original", S.sig).kv("mutated", shorten(t, 600)).kv("data_label", D.label).kv("data_hex", shorten(hexs(D.data), 200)).kv("verifier", who == 0 ? "TMCG_PublicKey" : who == 1 ? "TMCG_SecretKey" : "imported TMCG_PublicKey").kv("pubkey", shorten(V.pubt, 700));
 	if (same && !acc) violation("C10/sig/honest-signature-refused", "verify(data, sign(data)) returned false", w.str());
 	if (cls == "tamper" && acc) {
@@ -241,7 +241,7 @@ static void eval_enc(EncCase &E, const std::string &t, const std::string &field,
 	note("enc/" + field + "/" + mut, E.K->ref + hex(E.x, TMCG_SAEP_S0));
 	count("enc_" + cls + (acc ? "_accepted" : "_refused")); count("enc_field_" + field);
 	bool bytes_ok = acc && memcmp(out.get(), E.x, TMCG_SAEP_S0) == 0;
-	if (ctx.option_l("rec", 1)) { emit_key(D); record(J().kv("r", "d").kv("k", D.ref).kv("cls", cls).kv("field", field).kv("mut", mut).kv("t", t).kv("acc", acc).kv("out", acc ? hex(out.get(), TMCG_SAEP_S0) : "").kv("x", hex(E.x, TMCG_SAEP_S0)).str()); }
+	if (ctx.option_l("rec", 1)) { emit_key(D); record(J().kv("r", "d").kv("k", D.ref).kv("cls", cls).kv("field", field).kv("mut", mut).kv("txt", t).kv("acc", acc).kv("out", acc ? hex(out.get(), TMCG_SAEP_S0) : "").kv("x", hex(E.x, TMCG_SAEP_S0)).str()); }
 	J w; w.kv("keybits", E.K->spec.bits).kv("field", field).kv("mutation", mut).kv("original", E.ct).kv("mutated", shorten(t, 600)).kv("plaintext", hex(E.x, TMCG_SAEP_S0)).kv("returned", acc ? hex(out.get(), TMCG_SAEP_S0) : "").kv("seckey", shorten(D.sect, 900));
 	if (same && !acc) violation("C10/enc/honest-ciphertext-refused", "decrypt(encrypt(x)) returned false", w.str());
 	if ((same || equiv) && acc && !bytes_ok) violation("C10/enc/wrong-plaintext", "decrypt returned bytes different from the encrypted value", w.str());
@@ -399,7 +399,7 @@ static void case_roundtrip(KeyEnt &K, Rng &r, KeyEnt *K2) {
 				std::string t = "sig|" + S.f[1] + "|" + mpz_b62(rt[k]) + "|";
 				std::string exc; int acc = accepted([&] { return lib_verify(K, k % 3, m.data, t); }, &exc);
 				count("sig_root_verified"); note("sig/root" + std::to_string(k), K.ref + m.label);
-				if (ctx.option_l("rec", 1)) { emit_key(K); J j; j.kv("r", "v").kv("k", K.ref).kv("cls", "honest").kv("field", "value").kv("mut", "root " + std::to_string(k)).kv("t", t).kv("acc", acc); put_data(j, m); record(j.str()); }
+				if (ctx.option_l("rec", 1)) { emit_key(K); J j; j.kv("r", "v").kv("k", K.ref).kv("cls", "honest").kv("field", "value").kv("mut", "root " + std::to_string(k)).kv("txt", t).kv("acc", acc); put_data(j, m); record(j.str()); }
 				if (!acc) violation("C10/sig/root-refused", "one of the four square roots of the padded value does not verify", J().kv("keybits", K.spec.bits).kv("sig", t).kv("data_hex", shorten(hexs(m.data), 200)).kv("pub", shorten(K.pubt, 700)).str());
 			}
 			if (!found) violation("C10/sig/value-not-a-root", "signature value is not among the four roots computed by the harness", J().kv("sig", S.sig).str());
@@ -479,7 +479,7 @@ static void case_sig_tamper(KeyEnt &K, Rng &r, KeyEnt *K2) {
 			std::string t = "sig|" + K.kid + "|" + mpz_b62(rt[r.below(4)]) + "|"; const char *pn = part == 0 ? "w" : part == 1 ? "r*" : "gamma";
 			std::string exc; int acc = accepted([&] { return lib_verify(K, who++ % 3, m.data, t); }, &exc);
 			count(std::string("sig_forged_padding_") + (acc ? "accepted" : "refused")); count(std::string("sig_forged_") + (part == 0 ? "w" : part == 1 ? "r" : "gamma")); note(std::string("sig/forged/") + pn, K.ref + std::to_string(pos));
-			if (ctx.option_l("rec", 1)) { emit_key(K); J j; j.kv("r", "v").kv("k", K.ref).kv("cls", "tamper").kv("field", "padding").kv("mut", std::string("forged ") + pn).kv("t", t).kv("acc", acc); put_data(j, m); record(j.str()); }
+			if (ctx.option_l("rec", 1)) { emit_key(K); J j; j.kv("r", "v").kv("k", K.ref).kv("cls", "tamper").kv("field", "padding").kv("mut", std::string("forged ") + pn).kv("txt", t).kv("acc", acc); put_data(j, m); record(j.str()); }
 			if (acc) violation(std::string("C10/sig/forged-padding-accepted/") + (part == 0 ? "w" : part == 1 ? "r" : "gamma"), std::string("verify() accepted a root of a padded value whose ") + pn + " part is wrong in one bit",
 				J().kv("keybits", K.spec.bits).kv("sig", t).kv("byte", (long long)pos).kv("data_hex", shorten(hexs(m.data), 200)).kv("pub", shorten(K.pubt, 700)).str());
 		  } }
@@ -521,7 +521,7 @@ static void case_enc_tamper(KeyEnt &K, Rng &r, KeyEnt *K2) {
 				std::string t = forged_saep(K, x, j, v, r);
 				std::unique_ptr<unsigned char[]> out(new unsigned char[TMCG_SAEP_S0]); std::string exc; int acc = accepted([&] { return K.sk->decrypt(out.get(), t); }, &exc);
 				count(std::string("enc_forged_redundancy_") + (acc ? "accepted" : "refused")); note("enc/forged-redundancy/" + std::to_string(j) + "/" + std::to_string(v), K.ref);
-				if (ctx.option_l("rec", 1)) { emit_key(K); record(J().kv("r", "d").kv("k", K.ref).kv("cls", "tamper").kv("field", "padding").kv("mut", "redundancy byte " + std::to_string(j)).kv("t", t).kv("acc", acc).kv("out", acc ? hex(out.get(), TMCG_SAEP_S0) : "").kv("x", hex(x, TMCG_SAEP_S0)).str()); }
+				if (ctx.option_l("rec", 1)) { emit_key(K); record(J().kv("r", "d").kv("k", K.ref).kv("cls", "tamper").kv("field", "padding").kv("mut", "redundancy byte " + std::to_string(j)).kv("txt", t).kv("acc", acc).kv("out", acc ? hex(out.get(), TMCG_SAEP_S0) : "").kv("x", hex(x, TMCG_SAEP_S0)).str()); }
 				if (acc) violation("C10/enc/forged-redundancy-accepted", "decrypt() accepted a block whose redundancy is not all-zero",
 					J().kv("keybits", K.spec.bits).kv("ct", t).kv("redundancy_byte", (long long)j).kv("byte_value", (long long)v).kv("seckey", shorten(K.sect, 900)).str());
 			}
